@@ -3,6 +3,7 @@ package main
 // C10 — PageSelect.tla / Lifecycle.tla binding.
 
 import (
+	"strings"
 	"encoding/json"
 	"fmt"
 	"os"
@@ -192,6 +193,164 @@ func c10Select(i int, raw []byte) Result {
 	return r
 }
 
+// ---------------------------------------------------------------- selections under per-page options
+
+// a 5-page document whose pages differ in what the per-page options act on: the running header "Quarterly Report"
+// on pages 2-5 (page 1 is a cover without it), running page numbers "Page <p>" at the foot of pages 1-4, three body
+// lines "... b<p>l<k>" per page, and a second column on page 3. Body lines and page numbers name their page and a
+// header belongs to the page of the token that follows it, so the result of page p under options o is read off the
+// whole-document extraction under o.
+var c10OptOnce sync.Once
+var c10OptPath string
+var c10OptErr error
+
+func c10OptDoc() (string, error) {
+	c10OptOnce.Do(func() {
+		var pages [][]pdfdoc.Placed
+		for p := 1; p <= 5; p++ {
+			var pg []pdfdoc.Placed
+			if p >= 2 {
+				pg = append(pg, pdfdoc.Placed{X: 72, Y: 760, Size: 10, Text: "Quarterly Report"})
+			}
+			for k := 1; k <= 3; k++ {
+				pg = append(pg, pdfdoc.Placed{X: 72, Y: 640 - 18*k, Size: 11, Text: fmt.Sprintf("body text of the page b%dl%d", p, k)})
+				if p == 3 {
+					pg = append(pg, pdfdoc.Placed{X: 340, Y: 640 - 18*k, Size: 11, Text: fmt.Sprintf("second column b%dl%d", p, k+3)})
+				}
+			}
+			if p <= 4 {
+				pg = append(pg, pdfdoc.Placed{X: 72, Y: 30, Size: 10, Text: fmt.Sprintf("Page %d", p)})
+			}
+			pages = append(pages, pg)
+		}
+		data, err := pdfdoc.BuildSimple(pages, 612, 792)
+		if err != nil {
+			c10OptErr = err
+			return
+		}
+		dir := os.Getenv("VERIF_SCRATCH")
+		if dir == "" {
+			dir = os.TempDir()
+		}
+		c10OptPath = filepath.Join(dir, fmt.Sprintf("c10opt-%d.pdf", os.Getpid()))
+		c10OptErr = os.WriteFile(c10OptPath, data, 0o644)
+	})
+	return c10OptPath, c10OptErr
+}
+
+func applyOpts(e *tabula.Extractor, opts []string) *tabula.Extractor {
+	for _, o := range opts {
+		switch o {
+		case "xh":
+			e = e.ExcludeHeaders()
+		case "xf":
+			e = e.ExcludeFooters()
+		case "xhf":
+			e = e.ExcludeHeadersAndFooters()
+		case "col":
+			e = e.ByColumn()
+		case "join":
+			e = e.JoinParagraphs()
+		case "layout":
+			e = e.PreserveLayout()
+		}
+	}
+	return e
+}
+
+var optTokRe = regexp.MustCompile(`Quarterly Report|Page (\d)|b(\d)l\d`)
+
+// tokens of a text, each with the page it belongs to
+func optTokens(s string) (toks []string, pages []int) {
+	for _, m := range optTokRe.FindAllStringSubmatch(s, -1) {
+		toks = append(toks, m[0])
+		switch {
+		case m[1] != "":
+			pages = append(pages, int(m[1][0]-'0'))
+		case m[2] != "":
+			pages = append(pages, int(m[2][0]-'0'))
+		default:
+			pages = append(pages, -1) // header: the page of the next token
+		}
+	}
+	for k := len(pages) - 2; k >= 0; k-- {
+		if pages[k] < 0 {
+			pages[k] = pages[k+1]
+		}
+	}
+	return
+}
+
+var wholeMu sync.Mutex
+var wholeByOpts = map[string]string{}
+
+func c10SelectOpts(i int, raw []byte) Result {
+	var c struct {
+		selCase
+		Opts []string `json:"opts"`
+	}
+	if err := json.Unmarshal(raw, &c); err != nil {
+		return fail("decode", "decode", err.Error(), nil)
+	}
+	path, err := c10OptDoc()
+	if err != nil {
+		return Result{OK: false, Sig: "MACHINERY:pdfw", What: err.Error()}
+	}
+	okey := strings.Join(c.Opts, "+")
+	r := Result{OK: true, Nontrivial: len(c.Calls) > 0 && len(c.Opts) > 0, Key: string(raw), Evals: 2}
+	mk := func(cl, what string, obs interface{}) Result {
+		x := fail(cl, "C10:"+cl+":"+okey, what+fmt.Sprintf(" (calls %s, options %v, 5-page document)", mustJSON(c.Calls), c.Opts), map[string]interface{}{"case": json.RawMessage(raw), "observed": obs})
+		x.Nontrivial, x.Key, x.Evals = r.Nontrivial, r.Key, 2
+		return x
+	}
+	// the per-page results: the whole document under the same options (computed once per option set)
+	wholeMu.Lock()
+	whole, ok := wholeByOpts[okey]
+	if !ok {
+		w, _, werr := applyOpts(tabula.Open(path), c.Opts).Text()
+		if werr != nil {
+			wholeMu.Unlock()
+			return Result{OK: false, Sig: "MACHINERY:c10opt", What: "whole-document extraction failed: " + werr.Error()}
+		}
+		whole, wholeByOpts[okey] = w, w
+	}
+	wholeMu.Unlock()
+	// options before and after the selection calls: both spellings must agree
+	t1, _, e1 := apply(applyOpts(tabula.Open(path), c.Opts), c.Calls).Text()
+	t2, _, e2 := applyOpts(apply(tabula.Open(path), c.Calls), c.Opts).Text()
+	switch c.Expected.Outcome {
+	case "error":
+		if e1 == nil || e2 == nil {
+			return mk("select-noerror", "Text() accepted a page number outside the document", nil)
+		}
+		return r
+	case "unspecified":
+		return r
+	}
+	if e1 != nil || e2 != nil {
+		return mk("select-error", fmt.Sprintf("Text() failed on a valid selection: %v / %v", e1, e2), nil)
+	}
+	sel := map[int]bool{}
+	for _, p := range c.Expected.Pages {
+		sel[p] = true
+	}
+	wt, wp := optTokens(whole)
+	var want []string
+	for k, t := range wt {
+		if sel[wp[k]] {
+			want = append(want, t)
+		}
+	}
+	for which, txt := range []string{t1, t2} {
+		got, _ := optTokens(txt)
+		if fmt.Sprint(got) != fmt.Sprint(want) {
+			return mk("select-perpage", fmt.Sprintf("the selection %v gives %v; the whole document under the same options gives %v for these pages (options %s the selection calls)",
+				c.Expected.Pages, got, want, []string{"before", "after"}[which]), got)
+		}
+	}
+	return r
+}
+
 // ---------------------------------------------------------------- lifecycle
 
 type lifeOp struct {
@@ -332,6 +491,8 @@ func c10(mode, in, out string) error {
 	switch mode {
 	case "select":
 		return runCases(in, out, c10Select)
+	case "selectopts":
+		return runCases(in, out, c10SelectOpts)
 	case "life":
 		return runCasesSerial(in, out, c10Life)
 	}
